@@ -505,8 +505,16 @@ func matchElem(ctx Context, doc bsonkit.Doc, name, path string, v interface{}) e
 		return ErrNotMatched
 	}
 
+	// a query without operators can only match embedded documents
+	queryForm := len(query[0].Key) == 0 || query[0].Key[0] != '$'
+
 	// match first item
 	for _, item := range array {
+		// skip scalars if fields are queried
+		if _, isDoc := item.(bson.D); queryForm && !isDoc {
+			continue
+		}
+
 		// prepare virtual doc
 		virtual := bson.D{
 			bson.E{Key: "item", Value: item},
